@@ -731,6 +731,24 @@ func (prop) Execute(scAny any, phase string, log *core.Log) core.Result {
 	if !wideBounds(&res, log, s) {
 		return res
 	}
+	// Last of all the caller overwrites every coordinate of every message: a
+	// box is a value of its own, neither the replicas nor the boxes Bounds()
+	// returned earlier may follow.
+	for _, g := range geoms {
+		scribbleCoords(g)
+	}
+	for k, b := range reps {
+		if d := compare(b, models[k]); d != "" {
+			res.Fail("box-aliases-geometry", "box-aliases-geometry:replica", "replica %d changed when the caller overwrote the coordinates of the delivered geometries: %s; box now %s", k, d, describeBounds(b))
+			return res
+		}
+	}
+	for i, b := range msgBounds {
+		if d := compare(b, boxes[i]); d != "" {
+			res.Fail("box-aliases-geometry", "box-aliases-geometry:"+s.Msgs[i].T, "the box Bounds() returned for message %d changed when the caller overwrote the message's coordinates: %s; box now %s", i, d, describeBounds(b))
+			return res
+		}
+	}
 	reordered := res.Counters["reordered-delivery"] > 0
 	res.Nontrivial = (reordered && len(layoutsWithData) >= 2) || dupAfterData
 	var ls []string
@@ -802,6 +820,19 @@ func wideBounds(res *core.Result, log *core.Log, s *Scenario) bool {
 		log.Addf("wide %d %s layout %d ok", wi, m.T, m.L)
 	}
 	return true
+}
+
+func scribbleCoords(g geom.T) {
+	if gc, ok := g.(*geom.GeometryCollection); ok {
+		for _, c := range gc.Geoms() {
+			scribbleCoords(c)
+		}
+		return
+	}
+	fc := g.FlatCoords()
+	for i := range fc {
+		fc[i] = -8.25e6 - float64(i)
+	}
 }
 
 // laterLife applies the Later steps to the (normalised) message models and to
